@@ -49,6 +49,9 @@ pub struct Inner {
     pub log: Vec<(String, Key, HLCTimestamp, Option<Vec<u8>>)>,
     /// for every `log` entry, its position in the process-wide order of successful writes
     pub log_seq: Vec<u64>,
+    /// simulated latency of `get_keyspace_list` / `iter_metadata`: the snapshot is taken at once and handed
+    /// back this many (tokio) milliseconds later, like a backend that answers from another thread
+    pub read_latency_ms: u64,
 }
 
 /// Process-wide order of successful storage writes (all stores, all threads).
@@ -151,17 +154,24 @@ impl Storage for ModelStore {
 
     async fn get_keyspace_list(&self) -> Result<Vec<String>, Self::Error> {
         self.check_read()?;
-        Ok(self.inner.lock().keyspaces.iter().cloned().collect())
+        let (out, latency): (Vec<String>, u64) = {
+            let g = self.inner.lock();
+            (g.keyspaces.iter().cloned().collect(), g.read_latency_ms)
+        };
+        if latency > 0 {
+            tokio::time::sleep(std::time::Duration::from_millis(latency)).await;
+        }
+        Ok(out)
     }
 
     async fn iter_metadata(&self, keyspace: &str) -> Result<Self::MetadataIter, Self::Error> {
         self.check_read()?;
-        Ok(self
-            .metadata(keyspace)
-            .into_iter()
-            .map(|(k, (ts, tomb))| (k, ts, tomb))
-            .collect::<Vec<_>>()
-            .into_iter())
+        let out = self.metadata(keyspace).into_iter().map(|(k, (ts, tomb))| (k, ts, tomb)).collect::<Vec<_>>();
+        let latency = self.inner.lock().read_latency_ms;
+        if latency > 0 {
+            tokio::time::sleep(std::time::Duration::from_millis(latency)).await;
+        }
+        Ok(out.into_iter())
     }
 
     async fn remove_tombstones(
